@@ -1404,6 +1404,15 @@ fn MakeUncompressedStream(input: &[u8], input_size: usize, output: &mut [u8]) ->
     result
 }
 
+/// Verification hook (compiled only with `--cfg brotli_verif`): the stored-stream fallback of the
+/// one-shot call, so that an external harness can compare it with an executable model on
+/// inputs for which the fallback is not reachable through the public API.  No behaviour of the
+/// crate depends on it.
+#[cfg(brotli_verif)]
+pub fn verif_make_uncompressed_stream(input: &[u8], output: &mut [u8]) -> usize {
+    MakeUncompressedStream(input, input.len(), output)
+}
+
 #[deprecated(note = "Use encoder_compress instead")]
 pub fn BrotliEncoderCompress<
     Alloc: BrotliAlloc,
